@@ -119,7 +119,16 @@ void check_legal_string (const char *s) {
  */
 char *strput (char *x, char *limit, const char *y) {
 #ifdef HAVE_STPNCPY
-  return stpncpy(x, y, limit - x);
+  char *p;
+
+  if (x >= limit)
+    return x;
+  /* stpncpy() does not terminate what it had to cut short: do what the loop
+   * below does, so that the result is a string whatever the length of y */
+  p = stpncpy (x, y, limit - x);
+  if (p == limit)
+    *--p = 0;
+  return p;
 #else
   while ((*x++ = *y++))
     {
